@@ -1,4 +1,4 @@
 SPECIFICATION TraceSpec
-INVARIANTS Atomic OneCommit OkMeansComplete FaultMeansErrOrComplete NoDanglingTx Snapshot CrashAtomic RetryConverges Durable
+INVARIANTS Atomic OneCommit OkMeansComplete FaultMeansErrOrComplete NoDanglingTx Snapshot CrashAtomic RetryConverges Durable Consistent
 POSTCONDITION Accepted
 CHECK_DEADLOCK FALSE
